@@ -7,6 +7,7 @@ import (
 	"fmt"
 	"io"
 	"os"
+	"syscall"
 	"testing"
 
 	chunk "github.com/ipfs/boxo/chunker"
@@ -240,10 +241,24 @@ type failingSource struct {
 	together  bool
 	pos, call int
 	err       error
+	// transient: the error is reported once (an interrupted or would-block read) and the source carries on afterwards
+	transient, reported bool
 }
 
 func (f *failingSource) Read(p []byte) (int, error) {
+	if f.transient && f.reported {
+		k := f.frags[f.call%len(f.frags)]
+		f.call++
+		k = min(k, len(p), len(f.data)-f.pos)
+		if k <= 0 {
+			return 0, io.EOF
+		}
+		copy(p, f.data[f.pos:f.pos+k])
+		f.pos += k
+		return k, nil
+	}
 	if f.pos >= f.failAfter {
+		f.reported = true
 		return 0, f.err
 	}
 	k := f.frags[f.call%len(f.frags)]
@@ -290,9 +305,20 @@ func TestC07_P_FailingSource(t *testing.T) {
 		if failAfter == len(data) {
 			posClass = "at-end"
 		}
+		if failAfter == len(data) && len(data) > 0 && rapid.Bool().Draw(t, "notAtEndAfterAll") {
+			failAfter = len(data) / 2
+			posClass = "interior"
+		}
 		kind := genFaultKind(t)
+		// one source in five reports its error once - EINTR, EAGAIN or the drawn value - and delivers the rest of the bytes
+		// when asked again (whoever retries must not have thrown bytes away)
+		transient := rapid.IntRange(0, 4).Draw(t, "transientSourceError") == 0
+		var srcErr error = &ioFault{what: "source reader", inner: faultKinds[kind].Inner}
+		if transient {
+			srcErr = []error{syscall.EINTR, syscall.EAGAIN, fmt.Errorf("read: %w", syscall.EINTR), srcErr}[rapid.IntRange(0, 3).Draw(t, "transientValue")]
+		}
 		mk := func() *failingSource {
-			return &failingSource{data: data, failAfter: failAfter, together: false, err: &ioFault{what: "source reader", inner: faultKinds[kind].Inner}}
+			return &failingSource{data: data, failAfter: failAfter, together: false, err: srcErr, transient: transient}
 		}
 		frags := rapid.SliceOfN(rapid.SampledFrom([]int{1, 2, 3, 7, 64, 1000, 1 << 20}), 1, 4).Draw(t, "frags")
 		together := rapid.Bool().Draw(t, "together")
